@@ -15,6 +15,24 @@ attribute text on every run.
 The pseudo file system is opaque here: PseudoFs::save_to_bytes / restore_from_bytes are used under a contract over its abstract tree
 (`PTree`: next inode number, (parent, name) of every pseudo inode, children order); unit `pseudopersist` proves that contract on the real text
 of src/api/pseudo_fs.rs.  `mount_ino` / `walk_ino` (what a path resolves to) are functions of that tree.
+
+Argument for "indistinguishable" (all proof fns below are checked by Verus):
+  save_to_bytes  |= save_post          (field by field: options, cursor, pseudo tree image, every per-mount mapping slot)
+  restore_from_bytes |= restore_post   (field by field; an image of root version 1 gives 256 empty mapping slots: lemma_previous_version)
+  lemma_roundtrip: save_post + restore_post + snapshot inverse pair + pseudo inverse pair (lemma_pseudo_roundtrip of unit pseudopersist)
+                   => same options, cursor, per-mount mappings, GLOBAL mapping, effective mapping of every index, pseudo tree
+  restore_mount |= post_restore_mount  (recorded index, cursor untouched, restored mapping used for the mount root, inv() kept at a vacant index)
+  lemma_agree_base / lemma_agree_step / lemma_restore_all (induction over the caller's loop) / lemma_indistinguishable
+                   => route(ino) and eff_map(i) of the restored VFS equal those of the saved one for EVERY inode number / index, same occupancy
+Assumed links (not proved): allocate_fs_idx and PseudoFs::mount / path_walk / lookup / readdir read nothing but (cursor, occupancy) resp. the
+abstract tree; the re-attached backend reports the root inode number it had; the snapshot / versionize models.
+
+On the tree a2a13e4 the two units report two genuine deviations (reproduced in findings/repro_vfs_persist.rs, repaired by
+findings/c19_persist_fixes.patch, with which both units are STATUS ok):
+  [C19.restore.global_mapping]  restore_from_bytes does not (and through `&self` cannot) re-establish `Vfs::id_mapping`, the mapping that
+       get_effective_id_mapping falls back to; the restored `opts.id_mapping` says otherwise.
+  [C19.pseudo.evict.closed]     (unit pseudopersist) evict_inode of a directory that still has children leaves them in the inode table without
+       a parent; a state saved afterwards is refused by restore_from_state ("invalid parent inode").
 """
 import copy
 import re
@@ -513,14 +531,9 @@ def unit(root='/repo'):
                     'res is Ok ==> Vfs::post_restore_mount(*old(self), *final(self), fs_idx, old(self).root.mount_ino(path@), fs.res_mount()->Ok_0.0, Arc::new(fs)) // [C19.restore_mount.post]',
                     # re-attaching at a VACANT recorded index keeps the table invariant the routing proofs rest on (an occupied index or index 0 is the caller's error: not refused by the code)
                     'res is Ok && old(self).inv() && old(self).sb()[fs_idx as int] is None ==> final(self).inv() // [C19.restore_mount.inv]'],
-           # the tail call is bound to a name so that the lemma can be applied to the state it leaves (same value returned)
-           splices=[('self.insert_mount_locked(fs, entry, fs_idx, path)', 'replace', '''let res_ = self.insert_mount_locked(fs, entry, fs_idx, path);
-        proof {
-            if res_ is Ok && old(self).inv() && old(self).sb()[fs_idx as int] is None {
-                Vfs::lemma_restore_mount_keeps_inv(*old(self), *self, fs_idx, old(self).root.mount_ino(path@), entry, Arc::new(fs));    // [C19.restore_mount.inv]
-            }
-        }
-        res_''')]),
+           body_resub=[(r'self\.insert_mount_locked\(((?:[^()]|\([^()]*\))*)\)(\s*\}\s*)$',
+                        r'let res_ = self.insert_mount_locked(\1); proof { if res_ is Ok && old(self).inv() && old(self).sb()[fs_idx as int] is None { Vfs::lemma_restore_mount_keeps_inv(*old(self), *self, fs_idx, old(self).root.mount_ino(path@), entry, Arc::new(fs)); } } res_\2',
+                        'the tail call is bound to a name so that the invariant lemma can be applied to the state it leaves; the same value is returned')]),
     ]))
     unit_ = Unit('vfspersist', items, preludes=u.preludes, generic_tags={'cap': ['C19'], 'touch': ['C19'], 'ids': ['C19'], 'snapver': ['C19']})
     unit_.prelude_subst = u.prelude_subst
